@@ -7,6 +7,7 @@ import CssVerif.Model.Tokenizer
 import CssVerif.Gen.Productions
 import CssVerif.Driver.DeclOps
 import CssVerif.Driver.SheetOps
+import CssVerif.Driver.CodecOps
 open CssVerif CssVerif.Proto
 
 def showTok (t : Tok) : String :=
@@ -43,6 +44,13 @@ def step (line : String) : String :=
   | ["decl", hist] => DeclOps.run hist
   | ["sheet", fx, hist] => SheetOps.run fx hist
   | ["cont", which, hist] => SheetOps.runCont which hist
+  | ["cdet", f, hex] => CodecOps.opDetect f hex
+  | ["cdetu", f, hex] => CodecOps.opDetectU f hex
+  | ["cfix", f, enc, hex] => CodecOps.opFix f enc hex
+  | ["cdec", enc, force, hex] => CodecOps.opDec enc force hex
+  | ["cenc", enc, hex] => CodecOps.opEnc enc hex
+  | ["cidec", enc, force, chunks] => CodecOps.opIDec enc force chunks
+  | ["cienc", enc, chunks] => CodecOps.opIEnc enc chunks
   | _ => "bad-op"
 
 partial def loop (h : IO.FS.Stream) (out : IO.FS.Stream) : IO Unit := do
